@@ -103,6 +103,34 @@ def run(chk):
                 if not (np.allclose(m_a.means, m_b.means, rtol=1e-9, atol=1e-12) and np.allclose(m_a.weights, m_b.weights, rtol=1e-9, atol=1e-12)
                         and np.allclose(m_a.variances, m_b.variances, rtol=1e-8, atol=1e-12 * scale_x ** 2)):
                     chk.fail("m_step over %d per-chunk statistics differs from m_step over the whole-set statistics" % k, dict(ctx, composition=list(partsk)))
+        # ---- other storage types of the same values (narrow integers whose squares would wrap, single precision): the statistics are
+        #      those of the VALUES; compared with the float64 copy of the same array
+        if i % 3 == 1:
+            lo_x, ptp = float(X.min()), float(np.ptp(X)) or 1.0
+            for dt, lo, hi in ((np.uint8, 0, 255), (np.int16, -30000, 30000), (np.int8, -128, 127), (np.float32, None, None)):
+                if dt is np.float32:
+                    k, off = 1.0, 0.0
+                    Xq = X.astype(np.float32)
+                else:
+                    k = (hi - lo) / ptp
+                    off = lo - lo_x * k
+                    Xq = np.clip(np.rint(X * k + off), lo, hi).astype(dt)
+                mq = make_gmm(np.asarray(m.weights), np.asarray(m.means) * k + off, np.asarray(m.variances) * k * k)
+                s_t = mq.acc_stats(Xq)
+                s_f = mq.acc_stats(Xq.astype(np.float64))
+                chk.count(1, key=("dtype", np.dtype(dt).name))
+                if not stats_close(s_t, s_f):
+                    chk.fail("acc_stats on %s data differs from acc_stats on the float64 copy of the same values" % np.dtype(dt).name,
+                             {"dtype": np.dtype(dt).name, "X": hexlist(Xq.astype(np.float64)), "weights": hexlist(mq.weights), "means": hexlist(mq.means),
+                              "variances": hexlist(mq.variances), "shape": [C, D], "typed": dump(s_t), "float64": dump(s_f)})
+                if N >= 2:
+                    sd = mq.acc_stats(da.from_array(Xq, chunks=((1, N - 1), (D,))))
+                    sdn = GMMStats(C, D)
+                    sdn.t, sdn.n, sdn.sum_px, sdn.sum_pxx = int(sd.t), np.asarray(sd.n), np.asarray(sd.sum_px), np.asarray(sd.sum_pxx)
+                    sdn.log_likelihood = float(sd.log_likelihood)
+                    if not stats_close(sdn, s_f):
+                        chk.fail("acc_stats on a Dask array of %s data differs from the float64 NumPy result" % np.dtype(dt).name,
+                                 {"dtype": np.dtype(dt).name, "X": hexlist(Xq.astype(np.float64)), "shape": [C, D]})
         # arbitrary (non-consecutive) blocks
         perm = list(range(N))
         r.shuffle(perm)
@@ -143,6 +171,9 @@ def run(chk):
                 refused = False
             except ValueError:
                 refused = True
+                if op == "+=" and dump(c2) != dump(whole):
+                    chk.fail("a refused += (shapes %s and %s) left the accumulator partly updated" % (whole.shape, other.shape),
+                             {"shape_a": list(whole.shape), "shape_b": list(other.shape), "before": dump(whole), "after": dump(c2)})
             chk.count(1, key=("refuse", op))
             if not refused:
                 chk.fail("adding statistics of shapes %s and %s with %s is not refused" % (whole.shape, other.shape, op),
